@@ -48,9 +48,77 @@ def run(db, rep, tier):
         rep.analysis_broken("expected >= 17 matches_response overrides, found %d" % n_over)
     nf, nob = _bounds.run_functions(db, rep, "R1-bounds", fs)
     rep.extra["functions_analysed"] = nf
+    rep.rule("R2-address-table", "IPv4: a reply from the mirrored addresses can match; one not addressed to us (or, for unicast requests, "
+                                 "not coming from the requested host) never matches", 3)
+    r2(db, rep)
     rep.explanation = ("Decides clause 3 of C14 (memory safety of response matching for every layer class and every buffer "
                        "length incl. zero): abstract interpretation of all %d matches_response overrides (+ PDUCacher "
                        "instantiations and the helpers that receive the buffer) with linear facts from the dominating guards; "
-                       "%d access obligations. Clauses 1-2 (mirrored replies match, strangers do not) are value-level and not "
-                       "decided." % (n_over, nob))
+                       "%d access obligations. Of clauses 1-2 only the IPv4 address predicate is decided (R2: truth table of the "
+                       "address condition over its four comparisons); identifiers, ports and the other layers' predicates are "
+                       "value-level and not decided." % (n_over, nob))
     rep.assumptions += ["additions of 32-bit lengths do not overflow", "little-endian host arm of the byte-order macros"]
+
+
+def r2(db, rep):
+    from vlib import formula
+    fs = db.fns_named("Tins::IP::matches_response")
+    if not fs:
+        rep.analysis_broken("IP::matches_response vanished")
+        return
+    f = fs[0]
+    cand = None
+    for n in facts.fn_nodes(f):
+        if n["k"] == "IfStmt":
+            c = [x for x in n["c"] if x is not None][0]
+            t = facts.expr_str(c)
+            inner = [x for x in n["c"] if x is not None][1]
+            if any(x["k"] == "CXXMemberCallExpr" and x.get("cname") == "matches_response" for x in facts.walk(inner)):
+                cand = (n, c)
+    if cand is None:
+        rep.analysis_broken("IP::matches_response: the address condition guarding the inner match was not found")
+        return
+    node, c = cand
+    atoms, table = formula.expr_table(f, c)
+    role = {}
+    for a in atoms:
+        t = a.replace("this->", "").replace(" ", "")
+        if "saddr" in t and "daddr" in t and ("header_.saddr" in t and "->daddr" in t):
+            role[a] = "A"       # our source == reply's destination
+        elif "header_.daddr" in t and "->saddr" in t:
+            role[a] = "B"       # our destination == reply's source
+        elif "is_broadcast" in t:
+            role[a] = "C"
+        elif "header_.saddr" in t and t.endswith("==0") or t.startswith("0==") and "saddr" in t:
+            role[a] = "D"       # we had no address (DHCP)
+    unknown = [a for a in atoms if a not in role]
+    if unknown or not {"A", "B"} <= set(role.values()):
+        rep.analysis_broken("IP::matches_response: address condition uses comparisons the rule does not know: %s" % (unknown or atoms))
+        return
+    bad = {}
+    for vals, res in table.items():
+        env = {}
+        consistent = True
+        for a, v in zip(atoms, vals):
+            r = role[a]
+            if r in env and env[r] != v:
+                consistent = False
+            env[r] = v
+        if not consistent:
+            continue
+        A, B, C, D = env.get("A", False), env.get("B", False), env.get("C", False), env.get("D", False)
+        if A and D:
+            pass
+        if A and B and not res:
+            bad["mirror"] = "a reply with both addresses mirrored is rejected (%s)" % env
+        if (not A) and (not D) and res:
+            bad["to-us"] = "a packet that is not addressed to our source address is accepted (%s)" % env
+        if (not C) and (not B) and res:
+            bad["from-peer"] = "for a unicast request a packet that does not come from the requested host is accepted (%s)" % env
+    for k, what in (("mirror", "mirrored addresses can match"), ("to-us", "must be addressed to our source unless we had none"),
+                    ("from-peer", "unicast: must come from the requested host")):
+        key = "IP::matches_response:%s" % k
+        if k in bad:
+            rep.violation("R2-address-table", key, facts.loc(f, node), bad[k])
+        else:
+            rep.ok("R2-address-table", key, facts.loc(f, node), "%s (truth table over %s)" % (what, sorted(set(role.values()))))
